@@ -175,8 +175,11 @@ def _prune():
     except FileNotFoundError:
         return
     ds.sort(key=lambda d: os.path.getmtime(d), reverse=True)
-    for d in ds[4:]:
-        shutil.rmtree(d, ignore_errors=True)
+    now = time.time()
+    for d in ds[6:]:
+        # never remove a directory another process may be filling right now
+        if now - os.path.getmtime(d) > 3600:
+            shutil.rmtree(d, ignore_errors=True)
 
 
 def facts_dir(repo=None):
@@ -193,7 +196,8 @@ def get_lib_facts(configs, repo=None, jobs=None):
     d = facts_dir(repo)
     res = {}
     todo = []
-    with Lock(os.path.join(CACHE, "lock")):
+    with Lock(os.path.join(CACHE, "lock-" + os.path.basename(d))):
+        os.makedirs(d, exist_ok=True)
         for (fs, dbg) in configs:
             name = cfg_name(fs, dbg)
             p = os.path.join(d, "lib-" + name.replace("|", "_").replace("+", "_") + ".json")
@@ -222,7 +226,8 @@ def get_lib_facts(configs, repo=None, jobs=None):
 def get_derive_facts(repo=None):
     d = facts_dir(repo)
     p = os.path.join(d, "derive.json")
-    with Lock(os.path.join(CACHE, "lock")):
+    with Lock(os.path.join(CACHE, "lock-" + os.path.basename(d))):
+        os.makedirs(d, exist_ok=True)
         if os.environ.get("VERIF_NO_CACHE") == "1" or not os.path.exists(p):
             ok, log = build_derive_facts(p + ".tmp", repo)
             if not ok:
